@@ -17,12 +17,25 @@ type mtimer struct {
 }
 
 func (r *rtime) newTimer(d time.Duration, period time.Duration, fn func()) *mtimer {
-	tm := &mtimer{id: r.newObj(), when: r.now + int64(d), period: int64(period), armed: true, fn: fn}
+	tm := &mtimer{id: r.newObj(), when: satAdd(r.now, int64(d)), period: int64(period), armed: true, fn: fn}
 	if fn == nil {
 		tm.ch = &Chan[time.Time]{id: tm.id, cap: 1}
 	}
 	r.timers = append(r.timers, tm)
 	return tm
+}
+
+// satAdd adds a duration to a model instant, saturating like the runtime's
+// when(): a deadline that overflows means "never".
+func satAdd(now, d int64) int64 {
+	if d <= 0 {
+		return now + d
+	}
+	w := now + d
+	if w < now {
+		return 1<<63 - 1
+	}
+	return w
 }
 
 func (r *rtime) modelTime() time.Time { return r.opts.Epoch.Add(time.Duration(r.now)) }
@@ -120,7 +133,7 @@ func (tm *mtimer) stop() bool {
 func (tm *mtimer) reset(d time.Duration) bool {
 	r := rt
 	was := tm.stop()
-	tm.when = r.now + int64(d)
+	tm.when = satAdd(r.now, int64(d))
 	tm.armed = true
 	found := false
 	for _, t := range r.timers {
